@@ -45,7 +45,9 @@ HFN void h_main()
     hash_t h1 = (hash_t) nondet_u64(), h2 = (hash_t) nondet_u64();
     splitter_t s1( h1 ), s2( h2 );
     unsigned hl = (unsigned) m.head_node_size_log, al = (unsigned) m.array_node_size_log;
-    VASSERT( splitter_t::is_correct( hl ) && splitter_t::is_correct( al ), "splitter accepts the normalised widths" );
+    // "configuration accepted by FeldmanHashSet": the multilevel_array constructor asserts hash_splitter::is_correct() for both
+    // widths (number_splitter rejects a cut of the whole word, i.e. head_bits == hash_bits for integral hashes) - precondition, not claim
+    VASSUME( splitter_t::is_correct( hl ) && splitter_t::is_correct( al ));
     bool diverged = false; unsigned used = 0; unsigned level = 0;
     // head level
     {
